@@ -1919,7 +1919,8 @@ func (gs *GossipSubRouter) heartbeat() {
 	// expire fanout for topics we haven't published to in a while
 	now := time.Now().UnixNano()
 	for topic, lastpub := range gs.lastpub {
-		if lastpub+int64(gs.params.FanoutTTL) < now {
+		// (compare the elapsed time with the TTL: lastpub+TTL overflows for a very large TTL)
+		if time.Duration(now-lastpub) > gs.params.FanoutTTL {
 			delete(gs.fanout, topic)
 			delete(gs.lastpub, topic)
 		}
